@@ -64,6 +64,11 @@ def rowLoss (w : P) (row : List Rat) : Rat :=
 def avgLoss (w : P) (rows : Batch) (_ : Key) : Rat :=
   if rows.length = 0 then 0 else (rows.foldl (fun acc r => acc + rowLoss w r) 0) / (rows.length : Rat)
 
+/-- with a regulariser the evaluator adds `regularizer(params)` to the average loss (also for a
+client without examples): `lam/2·‖w‖²` -/
+def avgLossReg (ls : LossSpec) (w : P) (rows : Batch) (k : Key) : Rat :=
+  avgLoss w rows k + ls.lam / 2 * (w.map fun x => x * x).foldl (· + ·) 0
+
 def splitN (k : Key) (n : Nat) : List Key :=
   (List.range n).map fun i => k ++ List.replicate (i + 1) true ++ [false]
 
@@ -177,8 +182,8 @@ def handle (op : String) (args : List Val) : Option Val :=
     -- per round: cluster states and the assignment of every client of the cohort
     let res := history (fun (acc : List (ServerState P) × List Nat) co =>
         let s := acc.1
-        (hypRound avgLoss splitN (gradTab keyed co.2) copt sopt s co.1,
-         co.1.map fun c => hypAssign avgLoss splitN (s.map (·.params)) c)) (s0, []) cohorts
+        (hypRound (avgLossReg keyed) splitN (gradTab keyed co.2) copt sopt s co.1,
+         co.1.map fun c => hypAssign (avgLossReg keyed) splitN (s.map (·.params)) c)) (s0, []) cohorts
     some (.list (res.map fun r => .list [.list (r.1.map renderState), Val.ofNats r.2]))
   | "c12.apfl", [keyed, copt, sopt, coef0, seg, params, cohorts] => do
     let keyed ← parseLoss keyed; let copt ← parseOptR copt; let sopt ← parseOptR sopt
